@@ -107,6 +107,12 @@ func (e *Exec) verifIntrinsic(caller *frame, name string, args []Value) Value {
 			return cBool(re.MatchString(concStr(e, args[1])))
 		}
 		return e.predVar("match:" + strKey(args[0]) + ":" + strKey(args[1]))
+	case "verifJSONNumberInt":
+		e.run.noteStub("json.Number carrier: decimal literal model (integer literal = its int64 value; ParseFloat correctly rounded)")
+		return &NumStr{T: args[0].(*Term), Kind: "int"}
+	case "verifJSONNumberFloat":
+		e.run.noteStub("json.Number carrier: decimal literal with a fraction = its float64 value; not parseable as an integer")
+		return &NumStr{T: args[0].(*Term), Kind: "float"}
 	case "verifRuneCount":
 		if a, ok := args[0].(*AStr); ok {
 			return e.astrRunes(a)
